@@ -4,14 +4,14 @@
 (* a conflicting pair, a coinbase spend at the maturity edge, height- and time-locked transactions that become final with the   *)
 (* first new block (one of them with a child), a BIP68-locked child, a spend that consensus accepts but the standard script     *)
 (* flags reject, and a spend that fails a consensus script rule (CLTV).                                                          *)
-EXTENDS Integers, Sequences
+EXTENDS Integers, Sequences, UniCommon
 F == [kind |-> "final", v |-> 0]
 NF == [kind |-> "disabled", v |-> 0]        \* non-final sequence without a BIP68 meaning (bit 31 set)
 SH(v) == [kind |-> "height", v |-> v]
 NoLock == [kind |-> "none", v |-> 0]
 In(t, i, sq) == [op |-> <<t, i>>, seq |-> sq]
 Out(v) == [v |-> v, cls |-> "true"]
-Tx(ins, outs, ver, lock) == [ins |-> ins, outs |-> outs, ver |-> ver, lock |-> lock, pad |-> 0]
+Tx(ins, outs, ver, lock) == [ins |-> ins, outs |-> outs, ver |-> ver, lock |-> lock, pad |-> 0, twin |-> 0]
 TxUDef == <<
   Tx(<<In(0,1,F)>>, <<Out(40000), Out(40000), [v |-> 9000, cls |-> "nopx"], [v |-> 9000, cls |-> "cltv"]>>, 1, NoLock),   \* 1: parent, fee 2000
   Tx(<<In(0,1,F)>>, <<Out(95000)>>, 1, NoLock),                                              \* 2: conflicts with 1, fee 5000
